@@ -259,9 +259,23 @@ class CFG:
     def stmts(self):
         return [n for n in self.g.nodes if isinstance(n, ast.AST)]
 
+    def reaches(self, src, dst):
+        """Is there a path src -> ... -> dst (at least one edge)?"""
+        return self.reachable_without(src, dst, ())
+
 
 def cfg(fn):
     return CFG(fn)
+
+
+def block_of(mod, st):
+    """The statement list that directly contains `st`."""
+    p = mod.parents.get(st)
+    for field in ("body", "orelse", "finalbody", "handlers"):
+        blk = getattr(p, field, None)
+        if isinstance(blk, list) and any(x is st for x in blk):
+            return blk
+    raise AnalysisError("block of statement at line %s not found" % getattr(st, "lineno", "?"))
 
 
 # ---------------------------------------------------------------------------
